@@ -127,6 +127,38 @@ theorem failed_attempt_keeps_previous (now : Int) (prev : SnapImage) (ms : Nat)
     restoreSnap now (snapStep prev ms ds ls stoppedAt) = restoreSnap now prev :=
   crash_before_rename_restores_previous now prev ms ds ls hn stoppedAt h
 
+/-- one snapshot attempt: name, dataset, recorded time, and the number of file operations it got through -/
+abbrev Attempt := Nat × List (Nat × List (Bytes × Entry)) × Int × Nat
+
+/-- the data directory after a run of attempts, each on top of what the earlier ones left behind -/
+def attemptsRun : SnapImage → List Attempt → SnapImage
+  | im, [] => im
+  | im, (ms, ds, ls, st) :: rest => attemptsRun (snapStep im ms ds ls st) rest
+
+/-- every attempt of the run uses a name new to the directory *it* finds, and stops before the rename -/
+def AllFailedNew : SnapImage → List Attempt → Prop
+  | _, [] => True
+  | im, (ms, ds, ls, st) :: rest => NewName im ms ∧ st ≤ 4 ∧ AllFailedNew (snapStep im ms ds ls st) rest
+
+/-- **Any number of failed or interrupted attempts in a row leaves the previous snapshot restorable**: however many
+    attempts stop before their rename (each leaving its directory and partial files behind for the next one to find),
+    a fresh server still restores exactly what the image before the first of them restored. Unbounded in the number
+    of attempts. -/
+theorem repeated_failed_attempts_keep_previous (now : Int) (xs : List Attempt) (prev : SnapImage)
+    (h : AllFailedNew prev xs) : restoreSnap now (attemptsRun prev xs) = restoreSnap now prev := by
+  induction xs generalizing prev with
+  | nil => rfl
+  | cons x rest ih =>
+    obtain ⟨ms, ds, ls, st⟩ := x
+    simp only [AllFailedNew] at h
+    simp only [attemptsRun]
+    rw [ih _ h.2.2]
+    exact failed_attempt_keeps_previous now prev ms ds ls h.1 st h.2.1
+
+/-- non-vacuity: two interrupted attempts (steps 2 and 4) on an empty directory satisfy the hypothesis -/
+example : AllFailedNew { manifest := none, dirs := [] } [(5, [], 5, 2), (6, [], 6, 4)] := by
+  simp [AllFailedNew, NewName, snapStep]
+
 /-- the previous snapshot's directory is intact at every step: nothing of it is removed or rewritten -/
 theorem previous_directory_intact (prev : SnapImage) (ms : Nat) (ds : List (Nat × List (Bytes × Entry)))
     (ls : Int) (step : Nat) (d : SnapDir) (hd : d ∈ prev.dirs) : d ∈ (snapStep prev ms ds ls step).dirs := by
